@@ -125,6 +125,17 @@ class Coin:
         return (self.worth, self.worth)
 
 
+class Tally:
+    """an object the story uses by calling it (a callable instance is data, not an import binding)"""
+
+    def __init__(self, count, note):
+        self.count = count
+        self.note = note
+
+    def __call__(self):
+        return (type(self.count).__name__, type(self.note).__name__)
+
+
 class Sealed:
     """accepts attribute assignment only for its declared fields, and validates them"""
     _fields = ("tag", "body")
@@ -142,7 +153,7 @@ class Sealed:
         return [self.tag, type(self.body).__name__]
 '''
 
-STORY_SRC = '''from c06mod import Plain, Secret, Box, Hero, helper, Card, Coin, Sealed
+STORY_SRC = '''from c06mod import Plain, Secret, Box, Hero, helper, Card, Coin, Sealed, Tally
 from bardic.stdlib.economy import Wallet
 from bardic.stdlib.inventory import Inventory
 from bardic.stdlib.relationship import Relationship
@@ -296,7 +307,7 @@ def gen(rng, depth, py_only=False, unsupported=False):
     if k < 0.97:
         return ("wallet", rng.choice([0, 5, 30, 1000]))
     if py_only and rng.random() < 0.45:
-        return (rng.choice(["card", "coin", "sealed"]), sub(), sub())
+        return (rng.choice(["card", "coin", "sealed", "tally"]), sub(), sub())
     if py_only and rng.random() < 0.5:
         return ("rel", rng.choice(["Alex", "Sam"]), rng.choice([0, 35, 60, 100]), rng.choice([0, 50, 100]),
                 rng.choice([-10, 0, 4, 10]), rng.sample(["past", "work", "family"], rng.randint(0, 3)))
@@ -333,6 +344,8 @@ def build(w: World, s):
         return m.Coin(build(w, s[1]), build(w, s[2]))
     if t == "sealed":
         return m.Sealed(build(w, s[1]), build(w, s[2]))
+    if t == "tally":
+        return m.Tally(build(w, s[1]), build(w, s[2]))
     if t == "wallet":
         return w.Wallet(s[1])
     if t == "inventory":
@@ -375,7 +388,7 @@ def spec_stats(s, depth=1):
         kids = s[1]
     elif t == "dict":
         kids = [x for _, x in s[1]]
-    elif t in ("plain", "secret", "card", "coin", "sealed"):
+    elif t in ("plain", "secret", "card", "coin", "sealed", "tally"):
         kids = [s[1], s[2]]
     elif t == "box":
         kids = [s[1], s[2]] + list(s[3])
@@ -549,6 +562,8 @@ def probes(w: World, o):
         return (len(o.double()),)
     if isinstance(o, m.Sealed):
         return (len(o.show()),)
+    if isinstance(o, m.Tally):
+        return (o(),)
     return ()
 
 
@@ -851,7 +866,7 @@ def run(tier: str, seed: int) -> int:
             state_case(f"py:{sub_seed}", specs, coq=False)
             for s in specs.values():
                 depth, kinds, nested = spec_stats(s)
-                for kk in kinds & {"rel", "float", "card", "coin", "sealed"}:
+                for kk in kinds & {"rel", "float", "card", "coin", "sealed", "tally"}:
                     bump(dist["kinds"], kk)
                 chk.count(("p", repr(s)), nested >= 1 and depth >= 3)
 
